@@ -120,7 +120,10 @@ def called_names(node: ast.AST) -> Set[str]:
 MEMO_DECORATORS = {"lru_cache", "cache", "cached_property", "memoize", "memoized"}
 
 
-def purity(an: Analysis, rep, rule: str, entries, versions=((3, 10),)):
+API_ENTRIES = ("from_code", "to_code", "normalize", "to_json", "from_json")
+
+
+def purity(an: Analysis, rep, rule: str, entries, versions=((3, 10),), foreign=API_ENTRIES):
     """
     Shared obligation (same facts as C12's R12.3): the closure of the given API entries keeps no state between calls -
     no memoising decorator, no write to a module-level / class-level object.  A result that depends on earlier calls breaks
@@ -153,6 +156,27 @@ def purity(an: Analysis, rep, rule: str, entries, versions=((3, 10),)):
                     rep.add(rule, f"{m['fn']}::{norm_src(node)}", False, loc(mod, node),
                             f"{m['kind']} on a module-level object (created at {bad[0][1][0]}:{bad[0][1][1]}" + ") that survives the call: later calls see state left by earlier ones"
                             if bad[0][0] == "obj" else f"{m['kind']} on {bad[0][0]} {bad[0][1]}", config=entry)
+    # state these closures READ that another API call changes (a library table extended in place by the encoder and consulted by the decoder): the
+    # property is stated for every history of calls, not for a fresh process
+    own_read = set()
+    for entry in entries:
+        for V in versions:
+            it, _ = an.interp(entry, V)
+            for (_c, _i), vs in it.node_values.items():
+                own_read.update(a for a in vs if a[0] in ("ext", "class", "module") or (a[0] == "obj" and a[2] == MODULE_CTX))
+    for entry in foreign:
+        if entry in entries:
+            continue
+        for V in versions:
+            it, _ = an.interp(entry, V)
+            for m in it.mutations:
+                bad = [a for a in m["targets"] if ((a[0] == "obj" and a[2] == MODULE_CTX) or a[0] in ("class", "module", "ext")) and a in own_read]
+                if bad:
+                    node = it.node_index[m["node"]]
+                    mod = an.prog.module(m["module"])
+                    rep.add(rule, f"{m['fn']}::{norm_src(node)}", False, loc(mod, node),
+                            f"{m['kind']} on {bad[0][0]} {bad[0][1]} in a function `{entry}` reaches: the closure of {list(entries)} reads that object, so what it returns depends on "
+                            f"which other API calls were made before", config=entry)
     # a module-level iterator (zip / map / filter / iter / enumerate / reversed / generator expression) is state: the first call that walks it uses it up
     seen_fn = set()
     for entry in entries:
